@@ -88,6 +88,9 @@ def recording_actions(nts, terms, tag="n"):
             r = [tag, _n, context.production.prod_symbol_id, list(nodes)]
             if kw:
                 r.append({k: kw[k] for k in sorted(kw)})
+            ex = getattr(context, "extra", None)
+            if isinstance(ex, dict) and ex:
+                r.append({"extra": {str(k): ex[k] for k in sorted(ex)}})
             return r
 
         acts[n] = nt_action
